@@ -99,6 +99,12 @@ case("n08-with-assignment-to-outer-const-name", "found by this check: inside `wi
              ("STry", [("SWith", ident("o"), ("SBlock", [("SExpr", ("EAssign", pid("a"), num(-1))), pr(s("ok"), member(ident("o"), "a"))]))],
               (pid("e"), [pr(s("W"), member(ident("e"), "name"))]), None),
              let("a", num(1), "KConst")]))
+case("n09-with-assignment-to-for-in-const-head", "same class as n08 with the const coming from a for-in head (reported by the default-seed run)",
+     script([("SForIn", ("FHDecl", "KConst", pid("a")), ("EArray", [("AElem", num(0)), ("AElem", num(1))]),
+              ("SBlock", [("STry", [("SWith", ("EObject", [("PInit", ("PKStr", u("a")), ("EBool", True)), ("PInit", ("PKStr", u("y")), num(3))]),
+                                     ("SBlock", [pr(ident("a")), ("SExpr", ("EAssign", pid("a"), num(-1))), pr(s("ok"), ident("a"))]))],
+                           (pid("e"), [pr(s("W"), member(ident("e"), "name"))]), None),
+                          pr(s("after"), ident("a"))]))]))
 # agreeing smoke programs
 case("s01-smoke", "let / for / try / finally / throw / print / completion value",
      script([let("x", num(1)),
